@@ -181,6 +181,8 @@ class Env:
             raise Interrupt("injected BaseException")
         if kind == "kbd":
             raise KeyboardInterrupt()
+        if kind == "sysexit":
+            raise SystemExit(7)
         if kind == "none":
             return None
         if kind == "int":
@@ -302,7 +304,7 @@ def run_scenario(sc, fault=None, as_false=False, with_distance=False, whole=None
             p = RRTConnect(sc["step"], sc["bias"], pd, cfg)
         else:
             p = PRM(sc["prm_timeout"], sc["step"], pd, cfg)
-    except (Fault, TransientFault, Interrupt, KeyboardInterrupt):
+    except (Fault, TransientFault, Interrupt, KeyboardInterrupt, SystemExit):
         raise
     except Exception as e:  # noqa: BLE001
         return env, [(str(e), [], [])], space
@@ -322,7 +324,7 @@ def run_scenario(sc, fault=None, as_false=False, with_distance=False, whole=None
                 calls.append(("ok", [[bits(c) for c in flatten(s, [])] for s in states], states))
             else:
                 raise ValueError(op)
-        except (Fault, TransientFault, Interrupt, KeyboardInterrupt):
+        except (Fault, TransientFault, Interrupt, KeyboardInterrupt, SystemExit):
             raise
         except Exception as e:  # planning errors arrive as plain Exception(text)
             calls.append((str(e), [], []))
@@ -553,7 +555,7 @@ def wrappers(cases, rep):
 
 def c20(inp, rep):
     kmax = inp["k_max"]
-    kinds = ["raise", "none", "int", "str", "oserror", "baseexc", "kbd"]
+    kinds = ["raise", "none", "int", "str", "oserror", "baseexc", "kbd", "sysexit"]
     for sc in inp["scenarios"]:
         # fault region: the first obstacle predicate's neighbourhood if any, else around the goal
         region = (sc["obstacles"] or sc["goal"]["preds"])[0]
@@ -603,21 +605,26 @@ def c20(inp, rep):
                 ref_res = [c[0] for c in ref_calls]
                 ref_bits = [c[1] for c in ref_calls]
                 for kind in kinds:
-                    if light and kind in ("baseexc", "kbd") and (place.get("k", 0) >= 2 or with_d or (kind == "kbd" and place["place"] == "kth")):
+                    if light and kind in ("baseexc", "kbd", "sysexit") and (place.get("k", 0) >= 2 or with_d or (kind in ("kbd", "sysexit") and place["place"] == "kth")):
                         continue  # quick tier: the BaseException kinds on the region faults and the first calls
                     fault = dict(place, target=target, kind=kind)
                     rep.count("fault_runs")
                     if with_d:
                         rep.count("fault_runs_goal_with_distance_goal")
                     det = {"scenario": {k: sc[k] for k in ("id", "variant", "planner", "seed")}, "fault": {"target": target, "kind": kind, "placement": place, "goal_implements_distance_goal": with_d}}
+                    PENDING["det"] = det
+                    PENDING["planner"] = sc["planner"]
+                    PENDING["target"] = target
                     try:
                         env, calls, _ = run_scenario(sc, fault, with_distance=with_d)
-                    except (Fault, TransientFault, Interrupt, KeyboardInterrupt):
+                    except (Fault, TransientFault, Interrupt, KeyboardInterrupt, SystemExit):
+                        PENDING["det"] = None
                         rep.violate("%s|%s|exception-escaped" % (sc["planner"], target), "the injected Python exception propagated out of the planner call instead of being treated as False", det)
                         continue
                     except Exception as e:  # noqa: BLE001
                         rep.errors.append("fault run failed for %s: %r" % (sc["id"], e))
                         continue
+                    PENDING["det"] = None
                     res = [c[0] for c in calls]
                     pbits_all = [c[1] for c in calls]
                     if env.struck:
@@ -627,7 +634,7 @@ def c20(inp, rep):
                         rep.count("fault_runs_with_path")
                     cls = "%s|%s-callback|%s" % (sc["planner"], target, kind) + ("|goal-with-distance_goal" if with_d else "")
                     if res != ref_res or pbits_all != ref_bits:
-                        rep.violate(cls + "|differs-from-returning-False", "a %s callback that %s does not behave like one returning False (results %r vs %r)" % (target, {"raise": "raises", "none": "returns None", "int": "returns 1", "str": "returns 'x'", "oserror": "raises TimeoutError", "baseexc": "raises a BaseException subclass", "kbd": "raises KeyboardInterrupt"}[kind], res, ref_res), det)
+                        rep.violate(cls + "|differs-from-returning-False", "a %s callback that %s does not behave like one returning False (results %r vs %r)" % (target, {"raise": "raises", "none": "returns None", "int": "returns 1", "str": "returns 'x'", "oserror": "raises TimeoutError", "baseexc": "raises a BaseException subclass", "kbd": "raises KeyboardInterrupt", "sysexit": "raises SystemExit"}[kind], res, ref_res), det)
                         continue
                     if env.valid_calls != ref_env.valid_calls or env.valid_hash != ref_env.valid_hash:
                         rep.count("traces_differing_from_returning_False")  # information only: the statement is about the result
@@ -658,10 +665,29 @@ def widen(p):
     return q
 
 
+# A fault run during which the INTERPRETER EXITS (a callback's SystemExit handed to PyErr_Print) cannot be caught:
+# the exit hook records it as the violation it is, writes the report so far, and ends the driver normally.
+PENDING = {"det": None, "planner": None, "target": None, "rep": None, "out": None}
+
+
+def _on_exit():
+    det = PENDING["det"]
+    if det is None or PENDING["rep"] is None:
+        return
+    rep = PENDING["rep"]
+    rep.violate("%s|%s|interpreter-exit" % (PENDING["planner"], PENDING["target"]), "the interpreter exited in the middle of a planner call: a callback's SystemExit was neither treated as False nor raised to the caller", det)
+    rep.dump(PENDING["out"])
+    os._exit(0)
+
+
 def main():
+    import atexit
     mode, inp_path, out_path = sys.argv[1:4]
     inp = json.load(open(inp_path))
     rep = Report()
+    PENDING["rep"] = rep
+    PENDING["out"] = out_path
+    atexit.register(_on_exit)
     try:
         if mode == "c19":
             c19(inp, rep)
